@@ -370,7 +370,10 @@ func (tb *LTable) Next(key LValue) (LValue, LValue) {
 					}
 				}
 			}
-			if tb.array == nil || index == len(tb.array) {
+			// (index > len: the array part was shortened behind the traversal, e.g. by table.remove
+			// of the last element - every integer key in this range lives in the array part, so the
+			// traversal continues with the first hash key)
+			if tb.array == nil || index >= len(tb.array) {
 				if (tb.dict == nil || len(tb.dict) == 0) && (tb.strdict == nil || len(tb.strdict) == 0) {
 					return LNil, LNil
 				}
